@@ -22,6 +22,9 @@ func tryFormat(size uint64) (s *Srv, accepted bool, reason string) {
 		s = &Srv{D: d, N: n, Unstable: true}
 		s.api = n
 	})
+	if o.Slow {
+		return nil, false, "slow"
+	}
 	if o.Hung {
 		return nil, false, "hang"
 	}
@@ -94,6 +97,10 @@ func TestC15Sizes(t *testing.T) {
 		St.Eval(1)
 		if !ok {
 			refused++
+			if reason == "slow" {
+				St.Class("call_too_slow_for_the_harness_not_judged")
+				continue
+			}
 			if reason == "hang" {
 				fail(size, "formatting does not terminate")
 			}
